@@ -8,6 +8,7 @@ A spec is {"name", "n", "target", "shots", "cutoff", "tdm": None | {"N": [..], "
   {"list": [..]} | {"m": mode, "k": k, "fn": None|"sin"} | {"free": name, "k": k, "add": a} |
   {"loop": i, "k": k}
 """
+import json
 import re
 from fractions import Fraction
 
@@ -50,7 +51,10 @@ def make_par(p, q, free, loop):
         v = q[p["m"]].par
         if p.get("fn") == "sin":
             v = sfpar.par_funcs.sin(v)
-        return v if k == 1 else k * v
+        v = v if k == 1 else k * v
+        if "m2" in p:
+            v = v + p.get("k2", 1) * q[p["m2"]].par
+        return v
     if "free" in p:
         v = free[p["free"]]
         v = v if k == 1 else k * v
@@ -61,10 +65,15 @@ def make_par(p, q, free, loop):
     raise ValueError(p)
 
 
-def build(spec):
+def build(spec, op_cache=None):
+    """`op_cache` (a dict) makes equal operations ONE shared Operation instance, within the program and across
+    all programs built with the same cache (`bs = BSgate(..)` created once and applied many times).
+    Ops "Del" / "New" delete / create modes (regs of "New" = the indices the new modes receive)."""
     import strawberryfields as sf
     from strawberryfields import ops
     tdm = spec.get("tdm")
+    if op_cache is None and spec.get("share"):
+        op_cache = {}
     if tdm:
         prog = sf.TDMProgram(N=list(tdm["N"]), name=spec.get("name"))
         ctx = prog.context(*[list(r) for r in tdm["params"]])
@@ -78,17 +87,34 @@ def build(spec):
                 free[p["free"]] = prog.params(p["free"])
     with ctx as c:
         loop, q = c if tdm else ([], c)
+        q = list(q)
         for op in spec["ops"]:
+            if op["cls"] == "Del":
+                regs = [q[i] for i in op["regs"]]
+                ops.Del | (regs if len(regs) > 1 else regs[0])
+                continue
+            if op["cls"] == "New":
+                q += list(ops.New(len(op["regs"])))
+                continue
             cls = getattr(ops, op["cls"])
-            pars = [make_par(p, q, free, loop) for p in op.get("pars", [])]
-            kw = {k: (make_par(v, q, free, loop)) for k, v in op.get("kw", {}).items()}
-            if op.get("select") is not None:
-                kw["select"] = make_par(op["select"], q, free, loop)
-            if op.get("dark") is not None:
-                kw["dark_counts"] = make_par(op["dark"], q, free, loop)
-            o = cls(*pars, **kw)
-            if op.get("dagger"):
-                o = o.H
+            key = None
+            if op_cache is not None and all(par_kind(x) in ("numeric", "array", "array1d") for x in op.get("pars", [])):
+                key = json.dumps([op["cls"], op.get("pars"), op.get("kw"), op.get("select"), op.get("dark"),
+                                  bool(op.get("dagger"))], sort_keys=True, default=str)
+            if key is not None and key in op_cache:
+                o = op_cache[key]
+            else:
+                pars = [make_par(p, q, free, loop) for p in op.get("pars", [])]
+                kw = {k: (make_par(v, q, free, loop)) for k, v in op.get("kw", {}).items()}
+                if op.get("select") is not None:
+                    kw["select"] = make_par(op["select"], q, free, loop)
+                if op.get("dark") is not None:
+                    kw["dark_counts"] = make_par(op["dark"], q, free, loop)
+                o = cls(*pars, **kw)
+                if op.get("dagger"):
+                    o = o.H
+                if key is not None:
+                    op_cache[key] = o
             regs = [q[i] for i in op["regs"]]
             o | (regs if len(regs) > 1 else regs[0])
     if spec.get("target") is not None:
@@ -97,6 +123,23 @@ def build(spec):
         prog.run_options["shots"] = spec["shots"]
     if spec.get("cutoff") is not None:
         prog.backend_options["cutoff_dim"] = spec["cutoff"]
+    for k, v in (spec.get("run_extra") or {}).items():
+        prog.run_options[k] = v
+    for k, v in (spec.get("backend_extra") or {}).items():
+        prog.backend_options[k] = v
+    hist = spec.get("history")
+    if hist:
+        # state kept between calls: parameters hold values after binding / after a run
+        if hist.get("bind"):
+            prog.bind_params({free[k]: v for k, v in hist["bind"].items() if k in free})
+        if hist.get("run"):
+            tgt, prog._target = prog._target, None
+            ro, bo = dict(prog.run_options), dict(prog.backend_options)
+            prog.run_options.clear(); prog.backend_options.clear()
+            np.random.seed(sum(map(ord, spec.get("name", ""))) % 9973)     # the same outcomes on every rebuild
+            sf.Engine("gaussian").run(prog, args={k: v for k, v in hist.get("args", {}).items() if k in free})
+            prog._target = tgt
+            prog.run_options.update(ro); prog.backend_options.update(bo)
     return prog
 
 
@@ -135,9 +178,10 @@ def face(a, loop_vars):
     if atom:
         plain = a.name
     else:
+        import sympy
         f = a
         for s in a.free_symbols:
-            f = f.subs(s, s.name)
+            f = f.subs(s, sympy.Symbol(s.name))
         plain = str(f)
     loop = None
     for i, p in enumerate(loop_vars):
@@ -146,11 +190,90 @@ def face(a, loop_vars):
     return dict(text=str(a), plain=plain, atom=atom, loop=loop)
 
 
+def current_value(a):
+    """the number the expression evaluates to right now (constant, or all atoms bound / measured), else None"""
+    import strawberryfields.parameters as sfpar
+    try:
+        v = sfpar.par_evaluate(a)
+        v = np.asarray(v)
+        return sc(v.item()) if v.ndim == 0 else None
+    except Exception:  # noqa: BLE001   (ParameterError, or a plain Symbol that cannot be evaluated)
+        return None
+
+
 def sym_json(a, loop_vars):
+    """an expression of a *program*: its measured atoms are MeasuredParameter objects; the subsystem is read from
+    the RegRef they point to (never from the name)"""
+    import strawberryfields.parameters as sfpar
     syms = list(a.free_symbols)
-    meas = sorted({int(s.name[1:]) for s in syms if _is_measured(s)})
-    frees = sorted({s.name for s in syms if not _is_measured(s)})
-    return dict(pos=face(a, loop_vars), neg=face(-a, loop_vars), meas=meas, frees=frees)
+    meas = sorted({s.regref.ind for s in syms if isinstance(s, sfpar.MeasuredParameter)})
+    frees = sorted({s.name for s in syms if not isinstance(s, sfpar.MeasuredParameter)})
+    return dict(pos=face(a, loop_vars), neg=face(-a, loop_vars), meas=meas, frees=frees, val=current_value(a))
+
+
+def isym_json(a, loop_vars=()):
+    """an expression as an IR holds it: printed forms and the NAMES of its symbols.  Order of the names: those of
+    the form q<digits> by number, then the others alphabetically (the order in which the model's writer lists them)"""
+    names = {s.name for s in a.free_symbols}
+    qs = sorted((n for n in names if re.fullmatch(r"q[0-9]+", n)), key=lambda n: (int(n[1:]), n))
+    return dict(pos=face(a, loop_vars), neg=face(-a, loop_vars), names=qs + sorted(names - set(qs)), val=current_value(a))
+
+
+def strip_val(j):
+    """the same canonical form without the values currently held by symbolic parameters"""
+    if isinstance(j, dict):
+        return {k: strip_val(v) for k, v in j.items() if not (k == "val" and "pos" in j)}
+    if isinstance(j, list):
+        return [strip_val(v) for v in j]
+    return j
+
+
+def parse_expression(s, k_loop=0):
+    """what the readers must make of an expression string (independent of parameters.par_from_str):
+    canonical Sym of the expression over FreeParameter / measured atoms; None if SymPy cannot parse it"""
+    import sympy
+    from sympy.parsing.sympy_parser import parse_expr
+    import strawberryfields.parameters as sfpar
+    t = s.replace("{", "").replace("}", "")
+    names = set()
+    for m in re.finditer(r"[A-Za-z_]\w*", t):
+        if m.start() > 0 and (t[m.start() - 1].isalnum() or t[m.start() - 1] in "._"):
+            continue            # inside a number such as 1e-05
+        rest = t[m.end():].lstrip()
+        if not rest.startswith("("):
+            names.add(m.group(0))
+    try:
+        e = parse_expr(t, local_dict={n: sympy.Symbol(n) for n in names})
+        # printed forms in SF notation (free parameters in braces); the symbols stay names
+        e = e.subs({x: sfpar.FreeParameter(x.name) for x in e.free_symbols if not re.fullmatch(r"q[0-9]+", x.name)})
+        return isym_json(e, [sfpar.FreeParameter(f"p{i}") for i in range(k_loop)])
+    except Exception:  # noqa: BLE001
+        return None
+
+
+def _strings(j, out):
+    if isinstance(j, dict):
+        if set(j) == {"str"}:
+            out.add(j["str"])
+        for v in j.values():
+            _strings(v, out)
+    elif isinstance(j, list):
+        for v in j:
+            _strings(v, out)
+
+
+def parse_table(irj, braces_only, k_loop=0):
+    """the table P handed to the model readers: [string, Sym] for the strings of the IR"""
+    ss = set()
+    _strings(irj.get("ops", irj.get("stmts")), ss)
+    out = []
+    for x in sorted(ss):
+        if braces_only and "{" not in x:
+            continue
+        e = parse_expression(x, k_loop)
+        if e is not None:
+            out.append([x, e])
+    return out
 
 
 def _shape_flat(x):
@@ -165,7 +288,7 @@ def val_json(v, tdm=False, loop_vars=(), ir=False):
     import sympy
     import blackbird
     if isinstance(v, blackbird.RegRefTransform):
-        return {"rrt": sym_json(v.expr, loop_vars)}
+        return {"rrt": isym_json(v.expr, loop_vars)}
     if isinstance(v, sympy.Basic):
         return {"sym": sym_json(v, loop_vars)}
     if isinstance(v, str):
@@ -201,9 +324,11 @@ def prog_json(prog):
     t = None
     if tdm:
         t = dict(N=[int(x) for x in prog.N], params=[[sc(x) for x in np.array(r).tolist()] for r in prog.tdm_params])
-    return dict(name=str(prog.name), n=int(prog.num_subsystems), target=prog.target,
+    extra = [[k, val_json(v)] for k, v in prog.run_options.items() if k != "shots"] + \
+        [[k, val_json(v)] for k, v in prog.backend_options.items() if k != "cutoff_dim"]
+    return dict(name=str(prog.name), n=len(prog.reg_refs), target=prog.target,
                 shots=prog.run_options.get("shots"), cutoff=prog.backend_options.get("cutoff_dim"),
-                tdm=t, cmds=[cmd_json(c, loop) for c in prog.circuit])
+                tdm=t, extra=extra, cmds=[cmd_json(c, loop) for c in prog.circuit])
 
 
 def bb_json(bb):
@@ -218,6 +343,7 @@ def bb_json(bb):
                 shots=opts.get("shots"), cutoff=opts.get("cutoff_dim"),
                 tdm=(bb.programtype["options"].get("temporal_modes") if tdm else None),
                 vars=[[sc(x) for x in np.array(v).flatten().tolist()] for k, v in bb._var.items() if is_ptype(k)],
+                extra=[[k, val_json(v)] for k, v in opts.items() if k not in ("shots", "cutoff_dim")],
                 ops=ops)
 
 
@@ -303,8 +429,15 @@ def rand_spec(rng, idx, features):
     'dagger', 'meas', 'measured', 'free', 'array', 'array1d', 'kwargs', 'fourier', 'string', 'options',
     'options_no_target', 'unused_tail', 'complexnum', 'mz'"""
     n = rng.randint(1, 5)
+    if "wide" in features:
+        n = rng.randint(11, 14)          # two-digit subsystem indices
     L = rng.randint(1, 7)
     ops, measured = [], []
+    if "wide" in features and "measured" in features:
+        # measure high-index and low-index modes first, so that feed-forward can use q10, q11, … and mix them with q1
+        for m in rng.sample([10, 11, 12, 13][:n - 10], rng.randint(1, min(2, n - 10))) + rng.sample(range(1, 4), rng.randint(0, 2)):
+            ops.append(dict(cls="MeasureHomodyne", regs=[m], pars=[0.0], select=rng.choice([None, 0.25, -0.5])))
+            measured.append(m)
     for _ in range(L):
         kinds = ["gate1", "gate1", "gate2", "channel", "prep"]
         if "meas" in features:
@@ -332,10 +465,15 @@ def rand_spec(rng, idx, features):
             if isgate and "dagger" in features and rng.random() < 0.35:
                 op["dagger"] = True
             avail = [m for m in measured if m not in regs]
-            if isgate and pars and "measured" in features and avail and rng.random() < 0.4:
+            if isgate and pars and "measured" in features and avail and rng.random() < (0.7 if "wide" in features else 0.4):
                 pars[0] = {"m": rng.choice(avail), "k": rng.choice([1, 2, 0.5, -1]), "fn": rng.choice([None, None, "sin"])}
+                if len(avail) >= 2 and rng.random() < 0.5:
+                    # an expression of two measured modes, e.g. q1 - q10
+                    m2 = rng.choice([m for m in avail if m != pars[0]["m"]])
+                    pars[0] = {"m": pars[0]["m"], "k": pars[0]["k"], "fn": None, "m2": m2, "k2": rng.choice([1, -1, 2])}
             elif isgate and pars and "free" in features and rng.random() < 0.4:
-                pars[rng.randrange(len(pars))] = {"free": rng.choice(["x", "alpha", "y1"]), "k": rng.choice([1, 1, 2, -0.5]),
+                pars[rng.randrange(len(pars))] = {"free": rng.choice(["x", "alpha", "y1", "gamma", "beta", "E", "q1x", "q_factor", "quality", "pump", "p3x"]),
+                                                 "k": rng.choice([1, 1, 2, -0.5]),
                                                  "add": rng.choice([0, 0, 1])}
             elif kind == "gate1" and cls in ("Sgate", "Dgate") and "complexnum" in features and rng.random() < 0.3:
                 pars[0] = abs(pars[0]) if not isinstance(pars[0], dict) else pars[0]
@@ -403,21 +541,116 @@ def rand_spec(rng, idx, features):
         ops.append(op)
     if not ops:
         ops.append(dict(cls="Vacuum", regs=[0], pars=[]))
-    if "unused_tail" not in features or rng.random() < 0.5:
+    if "repeat" in features:
+        # the same kind of command several times, each carrying its option: inverted gates of one class,
+        # post-selected homodyne measurements, MeasureFock with dark counts / post-selection
+        cls = rng.choice(["Sgate", "Rgate", "Dgate", "Zgate"])
+        for _ in range(rng.randint(2, 4)):
+            ops.insert(rng.randint(0, len(ops)), dict(cls=cls, regs=[rng.randrange(n)],
+                                                      pars=[number(rng, cls, j) for j in range(GATES1[cls])], dagger=True))
+        if n >= 2:
+            cls = rng.choice(["BSgate", "S2gate", "CZgate"])
+            for _ in range(rng.randint(2, 3)):
+                ops.insert(rng.randint(0, len(ops)), dict(cls=cls, regs=rng.sample(range(n), 2),
+                                                          pars=[number(rng, cls, j) for j in range(GATES2[cls])], dagger=True))
+        for _ in range(rng.randint(2, 4)):
+            ops.append(dict(cls="MeasureHomodyne", regs=[rng.randrange(n)], pars=[rng.choice([0.0, 0.25, PI / 2])],
+                            select=rng.choice([0.0, 0.5, -0.25])))
+        for _ in range(rng.randint(2, 3)):
+            regs = rng.sample(range(n), rng.randint(1, min(n, 2)))
+            o = dict(cls="MeasureFock", regs=regs, pars=[])
+            if rng.random() < 0.5:
+                o["dark"] = {"list": [rng.choice([0.125, 0.25]) for _ in regs]}
+            else:
+                o["select"] = {"list": [rng.randint(0, 2) for _ in regs]}
+            ops.append(o)
+    if "share" in features:
+        # re-apply earlier operations (the builder turns equal operations into one shared instance)
+        cands = [o for o in ops if o["cls"] not in ("Del", "New") and all(par_kind(x) in ("numeric", "array") for x in o.get("pars", []))]
+        for _ in range(rng.randint(2, 4)):
+            if not cands:
+                break
+            o = dict(rng.choice(cands))
+            k = len(o["regs"])
+            if k > n:
+                continue
+            o["regs"] = rng.sample(range(n), k)
+            ops.insert(rng.randint(0, len(ops)), o)
+    if "delnew" in features:
+        d = rng.randrange(n)
+        last = max([i for i, o in enumerate(ops) if d in o["regs"]] + [-1])
+        t = rng.randint(last + 1, len(ops))
+        ops.insert(t, dict(cls="Del", regs=[d], pars=[]))
+        if rng.random() < 0.6:
+            k = rng.randint(1, 2)
+            new = list(range(n, n + k))
+            t2 = rng.randint(t + 1, len(ops))
+            ops.insert(t2, dict(cls="New", regs=new, pars=[]))
+            for m in new:
+                ops.insert(rng.randint(t2 + 1, len(ops)), dict(cls="Sgate", regs=[m], pars=[0.25, 0.0], dagger=rng.random() < 0.5))
+    if "delnew" not in features and ("unused_tail" not in features or rng.random() < 0.5):
         used = max(max(o["regs"]) for o in ops)
         # make the last mode used (otherwise the trailing modes cannot come back)
         if used < n - 1 and "unused_tail" not in features:
             ops.append(dict(cls="Vacuum", regs=[n - 1], pars=[]))
     spec = dict(name=f"g{idx}", n=n, target=None, shots=None, cutoff=None, tdm=None, ops=ops)
+    if "share" in features:
+        spec["share"] = True
     if "options" in features and rng.random() < 0.7:
         spec["target"] = rng.choice(["gaussian", "fock", "gbs", "X8_01"])
         if rng.random() < 0.7:
             spec["shots"] = rng.randint(1, 50)
         if rng.random() < 0.6:
             spec["cutoff"] = rng.randint(3, 9)
+    if "extra_opts" in features and rng.random() < 0.6:
+        spec["target"] = spec["target"] or "gaussian"
+        spec["shots"] = spec["shots"] or 3
+        if rng.random() < 0.7:
+            spec["run_extra"] = {"seed": rng.randint(1, 9)}
+        if rng.random() < 0.7:
+            spec["backend_extra"] = {"batch_size": rng.randint(2, 4)}
     if "options_no_target" in features and spec["target"] is None and rng.random() < 0.5:
         spec["shots"] = rng.randint(1, 50)
         spec["cutoff"] = rng.choice([None, 5])
+    return spec
+
+
+def rand_history_spec(rng, idx):
+    """a runnable Gaussian feed-forward program with free parameters, plus a history: the parameters
+    were bound, or the program was run, before it is written (state kept between calls)"""
+    n = rng.randint(2, 4)
+    ops, measured = [], []
+    names = ["x", "alpha"]
+    for _ in range(rng.randint(2, 6)):
+        r = rng.random()
+        free_modes = [m for m in range(n) if m not in measured]
+        if r < 0.3 and len(free_modes) > 1:
+            m = rng.choice(free_modes)
+            ops.append(dict(cls="MeasureHomodyne", regs=[m], pars=[rng.choice([0.0, 0.25, PI / 2])]))
+            measured.append(m)
+            continue
+        if not free_modes:
+            break
+        cls = rng.choice(["Rgate", "Sgate", "Dgate", "Zgate", "Xgate"])
+        regs = [rng.choice(free_modes)]
+        pars = [rng.randint(-4, 4) / 8 for j in range(GATES1[cls])]
+        r2 = rng.random()
+        if measured and r2 < 0.45:
+            pars[0] = {"m": rng.choice(measured), "k": rng.choice([1, 2, 0.5, -1]), "fn": rng.choice([None, None, "sin"])}
+        elif r2 < 0.8:
+            pars[0] = {"free": rng.choice(names), "k": rng.choice([1, 1, 2, -0.5]), "add": rng.choice([0, 0, 1])}
+        op = dict(cls=cls, regs=regs, pars=pars)
+        if rng.random() < 0.3:
+            op["dagger"] = True
+        ops.append(op)
+    if not ops:
+        ops.append(dict(cls="Rgate", regs=[0], pars=[{"free": "x", "k": 1, "add": 0}]))
+    used = max(max(o["regs"]) for o in ops)
+    if used < n - 1:
+        ops.append(dict(cls="Vacuum", regs=[n - 1], pars=[]))
+    vals = {"x": rng.choice([0.25, 0.5, -0.125]), "alpha": rng.choice([0.75, 0.125])}
+    spec = dict(name=f"h{idx}", n=n, target=None, shots=None, cutoff=None, tdm=None, ops=ops)
+    spec["history"] = rng.choice([dict(bind=vals), dict(run=True, args=vals), dict(run=True, args=vals)])
     return spec
 
 
@@ -426,9 +659,15 @@ def rand_tdm_spec(rng, idx, features):
     N = [rng.randint(1, 3)]
     if "nlist" in features and rng.random() < 0.6:
         N = [rng.randint(1, 2) for _ in range(rng.randint(2, 3))]
+    if "wide" in features:
+        N = [rng.randint(11, 13)] if rng.random() < 0.5 else [rng.randint(5, 7), rng.randint(5, 7)]
     n = sum(N)
     k = rng.randint(1, 4)
+    if "wide" in features:
+        k = rng.randint(11, 13)          # loop variables p10, p11, …
     T = rng.randint(1, 4)
+    if "wide" in features:
+        T = rng.choice([2, 11, 12])      # two-digit bin indices
     params = []
     for _ in range(k):
         kind = rng.choice(["float", "float", "int", "pi"])
@@ -442,6 +681,8 @@ def rand_tdm_spec(rng, idx, features):
     unused = list(range(k))
     rng.shuffle(unused)
     L = rng.randint(max(1, (k + 1) // 2), k + 3)
+    if "wide" in features:
+        unused = sorted(unused)          # pop() takes the highest loop variables first
     for _ in range(L):
         kind = rng.choice(["gate1", "gate1", "gate2", "meas"] if n >= 2 else ["gate1", "gate1", "meas"])
         if kind == "gate1":
@@ -461,7 +702,7 @@ def rand_tdm_spec(rng, idx, features):
             if rng.random() < 0.6:
                 i = unused.pop() if unused else rng.randrange(k)
                 pars[j] = {"loop": i}
-                if "loopexpr" in features and kind != "meas" and rng.random() < 0.3:
+                if "loopexpr" in features and rng.random() < 0.3:      # also the phase of a measurement
                     pars[j]["k"] = rng.choice([2, -1, 0.5])
         if kind != "meas" and "dagger" in features and rng.random() < 0.3:
             op["dagger"] = True
@@ -492,9 +733,66 @@ def par_kind(p):
     if "list" in p:
         return "list"
     if "m" in p:
-        return "measured-fn" if p.get("fn") else "measured"
+        if p.get("fn"):
+            # the XIR library parser drops the argument of a negated call: "-sin(q1)" is read as "-sin"
+            return "measured-negfn" if p.get("k", 1) == -1 else "measured-fn"
+        return "measured"
     if "free" in p:
         return "free"
     if "loop" in p:
         return "loopexpr" if p.get("k", 1) != 1 else "loop"
     return "other"
+
+
+# ------------------------------------------------------------------------------------------ generated code
+
+_PI = re.compile(r"^(?:(-?\d+)\*)?np\.pi(?:/(\d+))?$")
+
+
+def pyarg_json(src):
+    """canonical form of one printed argument (source text)"""
+    import ast
+    src = src.strip()
+    m = _PI.match(src)
+    if m:
+        return {"pi": [int(m.group(1) or 1), int(m.group(2) or 1)]}
+    m = re.fullmatch(r"p\[(\d+)\]", src)
+    if m:
+        return {"loop": int(m.group(1))}
+    try:
+        v = ast.literal_eval(src)
+        if isinstance(v, (int, float, complex)) and not isinstance(v, bool):
+            return {"lit": sc(v)}
+    except Exception:  # noqa: BLE001
+        pass
+    return {"text": re.sub(r"p\[(\d+)\]", r"{p\1}", src)}
+
+
+def code_json(code):
+    """the structure of the text generate_code returns (parsed with `ast`), in the encoding of `jCode`"""
+    import ast
+    tree = ast.parse(code)
+    seg = lambda node: ast.get_source_segment(code, node)
+    out = dict(tdmN=None, n=0, ctx=[], lines=[])
+    for st in tree.body:
+        if isinstance(st, ast.Assign) and seg(st.targets[0]) == "prog":
+            call = st.value
+            if seg(call.func) == "sf.TDMProgram":
+                out["tdmN"] = [int(x) for x in ast.literal_eval(seg(call.keywords[0].value))]
+            else:
+                out["n"] = int(ast.literal_eval(seg(call.args[0])))
+        if isinstance(st, ast.With):
+            cx = st.items[0].context_expr
+            if isinstance(cx, ast.Call):
+                out["ctx"] = [[pyarg_json(seg(e)) for e in a.elts] for a in cx.args]
+            for ln in st.body:
+                e = ln.value            # <op> | <modes>
+                left, right = e.left, e.right
+                dagger = isinstance(left, ast.Attribute) and left.attr == "H"
+                call = left.value if dagger else left
+                kws = {k.arg: val_json(ast.literal_eval(seg(k.value))) for k in call.keywords}
+                modes = [right] if isinstance(right, ast.Subscript) else list(right.elts)
+                out["lines"].append(dict(cls=seg(call.func).split(".")[-1], args=[pyarg_json(seg(a)) for a in call.args],
+                                         select=kws.get("select"), dark=kws.get("dark_counts"), dagger=dagger,
+                                         modes=[int(ast.literal_eval(seg(m.slice))) for m in modes]))
+    return out
